@@ -162,10 +162,32 @@ def judge_divergences(divs, pres, conf, workdir, tag):
   import tlc
   global JV
   JV = JV or re.compile(r'<<"JV", (\d+), "(\w+)">>')
-  events = []
-  for d, pre in zip(divs, pres):
-    resp = {k: v for k, v in d['got_resp'].items() if k != 'exc'}
+  events, slots = [], []
+  out = ['A_state'] * len(divs)
+
+  def wellformed(st):
+    # the projection marks what the model cannot even express (duplicate ids, ids beyond the bound, unknown entries):
+    # such a state is a divergence without asking TLC
+    try:
+      for s, row in st['trial'].items():
+        if len(row) != conf['MaxId']:
+          return False
+        for t in row:
+          if 'absent' not in t and set(t) != {'state', 'client', 'params', 'meas', 'final', 'reason', 'meta'}:
+            return False
+          if 'absent' not in t and '_extra' in t['meta']:
+            return False
+      return all('absent' in v or '_extra' not in v['meta'] for v in st['study'].values())
+    except Exception:  # pylint: disable=broad-except
+      return False
+  for k, (d, pre) in enumerate(zip(divs, pres)):
+    resp = {kk: v for kk, v in d['got_resp'].items() if kk != 'exc'}
+    if not (wellformed(pre) and wellformed(d['got_state'])) or str(resp.get('err', '')).startswith('Unknown:'):
+      continue
     events.append({'pre': pre, 'call': d['hist'][-1], 'resp': resp, 'post': d['got_state']})
+    slots.append(k)
+  if not events:
+    return out
   path = os.path.join(workdir, 'judge_%s.json' % tag)
   with open(path, 'w') as f:
     json.dump(events, f)
@@ -178,7 +200,9 @@ def judge_divergences(divs, pres, conf, workdir, tag):
   if len(v) != len(events):
     raise tlc.MachineryError('VizierJudge judged %d of %d steps\n%s' % (len(v), len(events), res.out[-1500:]))
   os.unlink(path)
-  return [v[k + 1] for k in range(len(events))]
+  for j, k in enumerate(slots):
+    out[k] = v[j + 1]
+  return out
 
 
 class ReplayResult:
